@@ -31,7 +31,10 @@ SortedSeq(S) == IF S = {} THEN <<>>
 \*   nt   : a row that opens a new Examples table (two more lines in front: "Examples:" and the heading row)
 \*   et   : heading-only Examples table (an "Examples:" line and a heading row, NO data rows; it contributes no
 \*          entity but exists in the file): 0 none, 1 in front of the table this row opens (nt rows only: two
-\*          more lines in front), 2 after this row (last row of its outline only: counted in body = 2)
+\*          more lines in front), 2 after this row (last row of its outline only: counted in body = 2) or
+\*          after the steps of an outline WITHOUT rows (counted in its body: steps + 2).
+\* Scenario-less entities exist: a rule without scenarios, an outline without rows (no Examples, or a heading-only
+\* table).  Nearest(line) may resolve to one; its selection is empty: everything but @setup/@teardown is skipped.
 \* This is the rendering contract: the driver renders exactly these line counts.
 Item(k, pre, body, tag, nt, et) == [k |-> k, pre |-> pre, body |-> body, tag |-> tag, nt |-> nt, et |-> et]
 TagLine(it)   == IF it.tag = "none" THEN 0 ELSE 1
